@@ -93,10 +93,13 @@ class Chk:
             if not abs(a - b) <= 1e-9 * max(1.0, abs(a), abs(b)):
                 self.fails[label] = "%r != %r" % (a, b)
 
-    def le(self, label, a, b, kind):
-        """a <= b"""
+    def le(self, label, a, b, kind, expand=False):
+        """a <= b  (expand: hand the cross-multiplied comparison to the solver as a sum of monomials)"""
         if self.P is not None:
-            self.P.holds(label, R.of(a) <= R.of(b), kind=kind)
+            cond = R.of(a) <= R.of(b)
+            if expand and isinstance(cond, SB):
+                cond = SB(z3.simplify(cond.t, som=True))
+            self.P.holds(label, cond, kind=kind)
         else:
             a, b = float(a), float(b)
             if not a <= b + 1e-9 * max(1.0, abs(a), abs(b)):
@@ -303,6 +306,7 @@ def _kernel(V, shape, kind):
         tot = tot + cache[key]
     if kind == "mirror":
         K[centre] = 1 - tot
+    V.kernel_symbols = list(cache.values())
     if kind == "prob":
         if V.symbolic:
             V.assume(tot > 0)
@@ -341,6 +345,7 @@ def _offset_field(V, cfg):
     N = n[0] * n[1] * n[2]
     lo, hi = V.real("m", default=-1.0), V.real("M", default=1.0)
     d = V.reals("d", N, lo=0)
+    V.offset_symbols = list(d)
     return d + lo, hi - d, lo, hi
 
 
@@ -487,14 +492,20 @@ def sc_fc_kernel(V, P, cfg):
     yref = ref_conv(x, n, K3, rules, vals, overrides)
     _check_y(K, y, yref)
     if kind == "fc-bounds":
+        if V.symbolic:
+            # ground instances of the ordered-field law  u >= 0 and d >= 0  =>  u*d >= 0  (valid formulas: they cannot
+            # change a verdict, they only spare the solver the search for its sign lemmas)
+            for u in V.kernel_symbols:
+                for dj in V.offset_symbols:
+                    V.c.assume(z3.Implies(z3.And(u.n >= 0, dj.n >= 0), u.n * dj.n >= 0))
         for e in range(len(y)):
-            K.le("m<=y[%d]" % e, lo, y[e], "bound-lower")
+            K.le("m<=y[%d]" % e, lo, y[e], "bound-lower", expand=True)
         sig.state = x_up
         m.response()
         y_up = m.sig_out[0].state
         obs["y_up"] = y_up
         for e in range(len(y_up)):
-            K.le("y[%d]<=M" % e, y_up[e], hi, "bound-upper")
+            K.le("y[%d]<=M" % e, y_up[e], hi, "bound-upper", expand=True)
         obs["yc"] = _constant(V, K, m, sig, cfg)
     if kind == "fc-volume":
         K.eq("sum(y)==sum(x)", _total(y), _total(x), "volume")
